@@ -3,7 +3,8 @@
 import json, os
 root = os.path.dirname(os.path.dirname(os.path.abspath(__file__)))
 import glob
-checks = [json.load(open(f)) for f in sorted(glob.glob(os.path.join(root, 'checks.d', '*.json')))]
+enabled = set(open(os.path.join(root, 'enabled.txt')).read().split())
+checks = [c for c in (json.load(open(f)) for f in sorted(glob.glob(os.path.join(root, 'checks.d', '*.json')))) if c['id'] in enabled]
 props = [json.loads(l) for l in open(os.path.join(root, 'properties.jsonl'))]
 na_reasons = {}
 p = os.path.join(root, 'not_applicable.json')
